@@ -327,7 +327,7 @@ def scratch_dir(prop):
     return d
 
 
-def run_regressions(prop, binary_for):
+def run_regressions(prop, binary_for, extra=()):
     """Replays every committed regression plan of this property (minimised
     plans of defects that were fixed): a fixed entry suppresses nothing, so a
     plan that violates again is reported like any other violation.
@@ -341,7 +341,7 @@ def run_regressions(prop, binary_for):
         if not f.startswith(prop + "-") or not f.endswith(".plan"):
             continue
         path = os.path.join(d, f)
-        viol, sig, fp, outp = exec_plan(binary_for(open(path).read()), path)
+        viol, sig, fp, outp = exec_plan(binary_for(open(path).read()), path, extra=extra)
         n += 1
         if viol:
             bad += 1
